@@ -12,7 +12,7 @@ package k8s
 
 // keyAt(n, key, i): the i-th taint of n has this key, and no earlier taint has.
 //@ spec keyAt(n *v1.Node, key string, i int) bool = 0 <= i && i < len(n.Spec.Taints) && n.Spec.Taints[i].Key == key && (forall j :: 0 <= j && j < i ==> n.Spec.Taints[j].Key != key)
-//@ spec hasKey(n *v1.Node, key string) bool = exists i :: 0 <= i && i < len(n.Spec.Taints) && n.Spec.Taints[i].Key == key
+//@ opaque spec hasKey(n *v1.Node, key string) bool = exists i :: 0 <= i && i < len(n.Spec.Taints) && n.Spec.Taints[i].Key == key
 //@ spec hasEsc(n *v1.Node) bool = hasKey(n, ToBeRemovedByAutoscalerKey)
 //@ spec hasForce(n *v1.Node) bool = hasKey(n, ToBeForceRemovedByAutoscalerKey)
 
@@ -235,7 +235,7 @@ package k8s
 //@ spec podsAllDS(i *NodeInfo) bool = forall j :: 0 <= j && j < len(i.pods) ==> i.pods[j] != nil && isDS(i.pods[j])
 //@ spec infoPodsOK(i *NodeInfo) bool = forall j :: 0 <= j && j < len(i.pods) ==> i.pods[j] != nil
 // nodeEmptyIn(n, m): the map has an entry for the node and all its pods are DaemonSet pods
-//@ spec nodeEmptyIn(n *v1.Node, m map[string]*NodeInfo) bool = has(m, n.Name) && m[n.Name] != nil && podsAllDS(m[n.Name])
+//@ opaque spec nodeEmptyIn(n *v1.Node, m map[string]*NodeInfo) bool = has(m, n.Name) && m[n.Name] != nil && podsAllDS(m[n.Name])
 // infoMapOK(m): entries are non-nil and list non-nil pods
 //@ spec infoMapOK(m map[string]*NodeInfo) bool = forall s string :: has(m, s) ==> m[s] != nil && infoPodsOK(m[s])
 
@@ -255,14 +255,20 @@ package k8s
 //@ ghost LNb ref
 //@ ghost LNo int
 //@ ghost LNl int
+//@ ghost LNby [string]ref
 //@ ghost LPb ref
 //@ ghost LPo int
 //@ ghost LPl int
 //@ spec listedNodes() []*v1.Node = mkslice(LNb, LNo, LNl, "[]*v1.Node")
 //@ spec listedPods() []*v1.Pod = mkslice(LPb, LPo, LPl, "[]*v1.Pod")
+// named(L): every element of L is the listed node of that name. Kubernetes object names are unique,
+// so the node lister returns nodes with pairwise distinct names (assumption of the List contract);
+// LNby maps a name to the node listed under it.
+//@ spec named(L []*v1.Node) bool = forall j :: 0 <= j && j < len(L) ==> L[j] != nil && LNby[L[j].Name] == L[j]
 //@ iface k8s.NodeLister.List(l) (nodes, err)
-//@   modifies LNb, LNo, LNl
-//@   ensures err == nil ==> (forall i :: 0 <= i && i < len(nodes) ==> nodes[i] != nil) && LNb == base(nodes) && LNo == off(nodes) && LNl == len(nodes)
+//@   modifies LNb, LNo, LNl, LNby
+//@   ensures err == nil ==> named(nodes) && LNb == base(nodes) && LNo == off(nodes) && LNl == len(nodes)
+//@   ensures err == nil ==> (forall s string :: LNby[s] != nil ==> (exists i :: 0 <= i && i < len(nodes) && nodes[i] == LNby[s]))
 //@ iface k8s.PodLister.List(l) (pods, err)
 //@   modifies LPb, LPo, LPl
 //@   ensures err == nil ==> (forall i :: 0 <= i && i < len(pods) ==> pods[i] != nil) && LPb == base(pods) && LPo == off(pods) && LPl == len(pods)
